@@ -1,8 +1,11 @@
 import Dashu.Driver.Loop
 import Dashu.Model.Int.Bits
 import Dashu.Model.Int.BitsPrim
+import Dashu.Model.Int.BitsSpecFast
 import Dashu.Model.Int.Hist
+import Dashu.Model.Int.HistX
 import Dashu.Model.Int.Cmp
+import Dashu.Driver.CmpCtx
 /-
   Driver of group `bits` (C09, C05).  For every case it runs the mirrored model of the code as it
   is (`codeFx = true`: after the fix commits 754b193 trailing_ones_large, 94ebcdb
@@ -146,6 +149,24 @@ def parseHOp (t : String) : Option HOp :=
   | ["nextpow2", i] => HOp.nextPow2 <$> idx i
   | _ => none
 
+/-- the extended instruction set (C05 round 4): gcd, sqrt, nth_root, from_str_radix, byte decoders and byte
+    round trips; everything else is an instruction of `parseHOp` -/
+def parseHOpX (t : String) : Option HOpX :=
+  let idx (x : String) : Option Nat := x.toNat?
+  let bytes (x : String) : Option (List Nat) := (parseBytes ("s:" ++ x)).map (·.map UInt8.toNat)
+  match t.splitOn ":" with
+  | ["gcd", i, j] => do pure (.gcd (← idx i) (← idx j))
+  | ["sqrt", i] => HOpX.sqrt <$> idx i
+  | ["root", i, n] => do pure (.nthRoot (← idx i) (← idx n))
+  | ["str", sg, r, tx] => do pure (.fromStr (sg == "1") (← idx r) (← bytes tx))
+  | ["leb", b] => HOpX.fromLeBytes <$> bytes b
+  | ["beb", b] => HOpX.fromBeBytes <$> bytes b
+  | ["sleb", b] => HOpX.fromSignedLeBytes <$> bytes b
+  | ["sbeb", b] => HOpX.fromSignedBeBytes <$> bytes b
+  | ["vle", i] => HOpX.viaLeBytes <$> idx i
+  | ["vbe", i] => HOpX.viaBeBytes <$> idx i
+  | _ => HOpX.base <$> parseHOp t
+
 def dispatchCmp : Dispatch := fun W op args =>
   match op, args with
   | "c.routes", [a] => do
@@ -175,15 +196,15 @@ def dispatchCmp : Dispatch := fun W op args =>
       ++ boolStr (decide (x = y))
     pure (chk m s)
   | "c.hist", [prog] => do
-    let ops ← (prog.splitOn ",").mapM parseHOp
-    let (regs, fin) := hrun W ops []
-    let (svals, sfin) := hrunSpec W ops []
+    let ops ← (prog.splitOn ",").mapM parseHOpX
+    let (regs, fin) := hrunX W ops []
+    let (svals, sfin) := hrunSpecX W ops []
     let status (stepRes : Option String) : String := if fin then "done" else stepRes.getD "bad"
     let st := status (match ops[regs.length]? with
-      | some op => (match hstep W regs op with | .panic k => some ("panic:" ++ k.name) | _ => some "bad")
+      | some op => (match hstepX W regs op with | .panic k => some ("panic:" ++ k.name) | _ => some "bad")
       | none => none)
     let sst := if sfin then "done" else (match ops[svals.length]? with
-      | some op => (match hspec W svals op with | .panic k => "panic:" ++ k.name | _ => "bad")
+      | some op => (match hspecX W svals op with | .panic k => "panic:" ++ k.name | _ => "bad")
       | none => "bad")
     let consistent := regs.all fun a => regs.all fun b =>
       let same := a.value W == b.value W
@@ -304,36 +325,42 @@ def dispatchCmp : Dispatch := fun W op args =>
       let s := "ok " ++ boolStr e ++ " " ++ ordStr c ++ " " ++ ordStr c' ++ " | " ++ boolStr e ++ " " ++ ordStr c ++ " "
         ++ ordStr c' ++ " " ++ boolStr e
       pure (chk m s)
-  | _, _ => none
+  | _, _ => Dashu.Driver.CmpCtx.dispatchCtx W op args   -- C05: ops over the float arithmetic model
+
+/-- a `usize` argument: any natural number up to `usize::MAX` of the host (parsed as `Nat`, never truncated);
+    anything larger is not a case the harness can run (`bad-op`) -/
+def parseUsize (s : String) : Option Nat := do
+  let k ← parseDecNat s
+  if k ≤ usizeMax then pure k else none
 
 def dispatchBits : Dispatch := fun W op args =>
   match op.splitOn ".", args with
   -- ------------------------------------------------------------ shifts
   | ["u", "shl"], [a, n] => do
-    let x ← parseNat a; let k ← parseDecNat n
+    let x ← parseNat a; let k ← parseUsize n
     pure (chk (outU W ((ofNat W x).shl W k)) ("ok " ++ natToHex (x * 2 ^ k)))
   | ["u", "shr"], [a, n] => do
-    let x ← parseNat a; let k ← parseDecNat n
+    let x ← parseNat a; let k ← parseUsize n
     let m0 := outU W ((ofNat W x).shr W k false); let m1 := outU W ((ofNat W x).shr W k true)
     let m := if m0 = m1 then m0 else m0 ++ " !model-forms-disagree"
-    pure (chk m ("ok " ++ natToHex (x / 2 ^ k)))
+    pure (chk m ("ok " ++ natToHex (fastDivPow2 x k)))
   | ["i", "shl"], [a, n] => do
-    let x ← parseInt a; let k ← parseDecNat n
+    let x ← parseInt a; let k ← parseUsize n
     pure (chk (outS W (ibigShl W (sOfInt W x) k)) ("ok " ++ intToHex (specShl x k)))
   | ["i", "shr"], [a, n] => do
-    let x ← parseInt a; let k ← parseDecNat n
+    let x ← parseInt a; let k ← parseUsize n
     let sx := sOfInt W x
     let m0 := "ok " ++ intToHex (ibigShr W codeFx sx k false)
     let m1 := "ok " ++ intToHex (ibigShr W codeFx sx k true)
     let m := if m0 = m1 then m0 else m0 ++ " !model-forms-disagree"
-    pure (chk m ("ok " ++ intToHex (specShr x k)))
+    pure (chk m ("ok " ++ intToHex (fastSpecShr x k)))
   -- ------------------------------------------------------------ bit tests
   | ["u", "bit"], [a, n] => do
-    let x ← parseNat a; let k ← parseDecNat n
-    pure (chk ("ok " ++ boolStr ((ofNat W x).bit W k)) ("ok " ++ boolStr (specBit x k)))
+    let x ← parseNat a; let k ← parseUsize n
+    pure (chk ("ok " ++ boolStr ((ofNat W x).bit W k)) ("ok " ++ boolStr (fastSpecBit x k)))
   | ["i", "bit"], [a, n] => do
-    let x ← parseInt a; let k ← parseDecNat n
-    pure (chk (exc boolStr (ibigBit W (sOfInt W x) k)) ("ok " ++ boolStr (specBit x k)))
+    let x ← parseInt a; let k ← parseUsize n
+    pure (chk (exc boolStr (ibigBit W (sOfInt W x) k)) ("ok " ++ boolStr (fastSpecBit x k)))
   | ["u", "bitlen"], [a] => do
     let x ← parseNat a
     pure (chk ("ok " ++ decStr ((ofNat W x).bitLen W)) ("ok " ++ decStr (bitLenNat x)))
@@ -341,11 +368,11 @@ def dispatchBits : Dispatch := fun W op args =>
     let x ← parseInt a
     pure (chk ("ok " ++ decStr ((sOfInt W x).mag.bitLen W)) ("ok " ++ decStr (bitLenNat x.natAbs)))
   | ["u", "setbit"], [a, n] => do
-    let x ← parseNat a; let k ← parseDecNat n
+    let x ← parseNat a; let k ← parseUsize n
     pure (chk (outU W ((ofNat W x).setBit W k)) ("ok " ++ natToHex (x ||| 2 ^ k)))
   | ["u", "clearbit"], [a, n] => do
-    let x ← parseNat a; let k ← parseDecNat n
-    pure (chk (outU W ((ofNat W x).clearBit W k)) ("ok " ++ natToHex (natAndNot x (2 ^ k))))
+    let x ← parseNat a; let k ← parseUsize n
+    pure (chk (outU W ((ofNat W x).clearBit W k)) ("ok " ++ natToHex (fastClearBit x k)))
   | ["u", "tz"], [a] => do
     let x ← parseNat a
     pure (chk (exc optStr ((ofNat W x).trailingZeros W)) (specTzStr x))
@@ -368,14 +395,14 @@ def dispatchBits : Dispatch := fun W op args =>
     pure (chk ("ok " ++ optStr ((ofNat W x).countZeros W))
       ("ok " ++ (if x = 0 then "none" else decStr (bitLenNat x - popNat x))))
   | ["u", "splitbits"], [a, n] => do
-    let x ← parseNat a; let k ← parseDecNat n
+    let x ← parseNat a; let k ← parseUsize n
     let (lo, hi) := (ofNat W x).splitBits W k
     let nc := if lo.Canon W ∧ hi.Canon W then "" else " !model-noncanon"
     pure (chk ("ok " ++ natToHex (lo.value W) ++ " " ++ natToHex (hi.value W) ++ nc)
-      ("ok " ++ natToHex (x % 2 ^ k) ++ " " ++ natToHex (x / 2 ^ k)))
+      ("ok " ++ natToHex (fastModPow2 x k) ++ " " ++ natToHex (fastDivPow2 x k)))
   | ["u", "clearhigh"], [a, n] => do
-    let x ← parseNat a; let k ← parseDecNat n
-    pure (chk (outU W ((ofNat W x).clearHighBits W k)) ("ok " ++ natToHex (x % 2 ^ k)))
+    let x ← parseNat a; let k ← parseUsize n
+    pure (chk (outU W ((ofNat W x).clearHighBits W k)) ("ok " ++ natToHex (fastModPow2 x k)))
   | ["u", "ispow2"], [a] => do
     let x ← parseNat a
     pure (chk ("ok " ++ boolStr ((ofNat W x).isPow2 W)) ("ok " ++ boolStr (specIsPow2 x)))
@@ -383,7 +410,7 @@ def dispatchBits : Dispatch := fun W op args =>
     let x ← parseNat a
     pure (chk (outU W ((ofNat W x).nextPow2 W)) ("ok " ++ natToHex (specNextPow2 x)))
   | ["u", "ones"], [n] => do
-    let k ← parseDecNat n
+    let k ← parseUsize n
     pure (chk (outU W (reprOnes W codeFx k)) ("ok " ++ natToHex (2 ^ k - 1)))
   -- ------------------------------------------------------------ bitwise binary
   | ["u", o], [a, b] => do
